@@ -382,3 +382,130 @@ Section Replay.
     cbn [snd map concat] in *. now rewrite app_nil_r.
   Qed.
 End Replay.
+
+(* ------------------------------------------------------------------------------------ *)
+(* Tag stability, one tag at a time: a backend that other writers use as well            *)
+(* ------------------------------------------------------------------------------------ *)
+
+(* The theorems of Section Immutable ask the frame condition of every tag.  A registry that
+   somebody else writes to while the wrapper is in use (a rival client whose push lands between
+   two backend calls of the wrapper) does not meet it for the tags the rival pushes; it does
+   meet it for every other tag.  The same theorems therefore, for ONE tag (r, t):
+       resolve_at : ResolveTag r t answers from the binding of (r, t);
+       frame_at   : an operation that is neither a delete nor a push under (r, t) leaves the
+                    binding of (r, t) alone - whatever else the backend does while serving it. *)
+Section ImmutableAt.
+  Context {B : Type}.
+  Variable bstep : registry B.
+  Variable hash : bytes -> bytes.
+  Variable r t : bytes.
+  Variable tagv : B -> option bytes.
+
+  Local Notation imm_step := (imm_step bstep hash).
+
+  Hypothesis resolve_at : forall st,
+    match tagv st with
+    | Some d => exists de, snd (bstep st (ResolveTag r t)) = Ok (RDesc de) /\ d_digest de = d
+    | None => exists e, snd (bstep st (ResolveTag r t)) = Err e
+    end.
+  Hypothesis frame_at : forall st o,
+    is_delete_op o = false -> touches o r t = false -> tagv (fst (bstep st o)) = tagv st.
+
+  Lemma resolve_frame_at st r' t' : tagv (fst (bstep st (ResolveTag r' t'))) = tagv st.
+  Proof. apply frame_at; reflexivity. Qed.
+
+  Theorem imm_binding_kept_at st o d :
+    tagv st = Some d -> tagv (fst (fst (imm_step st o))) = Some d.
+  Proof.
+    intros Hb. destruct (is_delete_op o) eqn:Ed.
+    { now rewrite (imm_delete_denied bstep hash st o Ed). }
+    destruct (is_tagged_push o) eqn:Et.
+    2:{ rewrite (imm_forwarded bstep hash st o Ed Et). cbn [fst]. rewrite frame_at; auto.
+        destruct o; try reflexivity. destruct t0; [reflexivity|discriminate]. }
+    destruct o; try discriminate. destruct t0 as [|n t0]; [discriminate|].
+    rewrite imm_step_spec. cbn [op_method immutable_declared Immutable.imm_self].
+    pose proof (resolve_frame_at st r0 (n :: t0)) as Hf1.
+    destruct (beqb r0 r && beqb (n :: t0) t) eqn:Esame.
+    - apply andb_true_iff in Esame as [Hr Ht]. apply beqb_eq in Hr, Ht. subst r0 t.
+      pose proof (resolve_at st) as Ha.
+      destruct (bstep st (ResolveTag r (n :: t0))) as [st1 r1] eqn:E1. cbn [fst snd] in *.
+      rewrite Hb in Ha. destruct Ha as [de [-> _]]. cbn [as_desc].
+      destruct (beqb (d_digest de) (hash content)); cbn [fst]; now rewrite Hf1.
+    - assert (Htouch : touches (PushManifest r0 (n :: t0) content media) r t = false).
+      { cbn [touches]. exact Esame. }
+      destruct (bstep st (ResolveTag r0 (n :: t0))) as [st1 r1] eqn:E1. cbn [fst snd] in *.
+      destruct (as_desc r1) as [de| | |]; cbn [fst].
+      + destruct (beqb (d_digest de) (hash content)); cbn [fst]; now rewrite Hf1.
+      + pose proof (frame_at st1 (PushManifest r0 (n :: t0) content media) eq_refl Htouch) as Hf2.
+        destruct (bstep st1 (PushManifest r0 (n :: t0) content media)) as [st2 r2]. cbn [fst] in Hf2.
+        destruct (as_desc r2) as [d2| | |]; cbn [fst]; try (now rewrite Hf2, Hf1).
+        pose proof (resolve_frame_at st2 r0 (n :: t0)) as Hf3.
+        destruct (bstep st2 (ResolveTag r0 (n :: t0))) as [st3 r3]. cbn [fst] in Hf3.
+        destruct (as_desc r3) as [d3| | |]; cbn [fst]; try (now rewrite Hf3, Hf2, Hf1).
+        destruct (beqb (d_digest d3) (hash content)); cbn [fst]; now rewrite Hf3, Hf2, Hf1.
+      + now rewrite Hf1.
+      + now rewrite Hf1.
+  Qed.
+
+  Theorem imm_push_binds_at st c m de :
+    t <> [] ->
+    snd (fst (imm_step st (PushManifest r t c m))) = Ok (RDesc de) ->
+    d_digest de = hash c /\ tagv (fst (fst (imm_step st (PushManifest r t c m)))) = Some (hash c).
+  Proof.
+    intros Ht. rewrite imm_step_spec. cbn [op_method immutable_declared].
+    assert (Hne : exists n t0, t = n :: t0) by (destruct t as [|n t0]; [congruence | eauto]).
+    destruct Hne as [n [t0 Et]]. rewrite Et. cbn [Immutable.imm_self]. clear Ht. rewrite <- Et. clear Et n t0.
+    pose proof (resolve_frame_at st r t) as Hf1.
+    pose proof (resolve_at st) as Ha.
+    destruct (bstep st (ResolveTag r t)) as [st1 r1] eqn:E1. cbn [fst snd] in *.
+    destruct (as_desc r1) as [d1| | |] eqn:Ed1; cbn [fst snd]; try discriminate.
+    - destruct (beqb (d_digest d1) (hash c)) eqn:Eb; cbn [fst snd]; [|discriminate].
+      intros H; injection H as <-. apply beqb_eq in Eb. split; [exact Eb|].
+      rewrite Hf1. destruct (tagv st) as [d|].
+      + destruct Ha as [de [-> Hd]]. cbn in Ed1. injection Ed1 as ->. congruence.
+      + destruct Ha as [e0 ->]. discriminate.
+    - destruct (bstep st1 (PushManifest r t c m)) as [st2 r2].
+      destruct (as_desc r2) as [d2| | |]; cbn [fst snd]; try discriminate.
+      pose proof (resolve_at st2) as Ha3.
+      pose proof (resolve_frame_at st2 r t) as Hf3.
+      destruct (bstep st2 (ResolveTag r t)) as [st3 r3]. cbn [fst snd] in *.
+      destruct (as_desc r3) as [d3| | |] eqn:Ed3; cbn [fst snd]; try discriminate.
+      destruct (beqb (d_digest d3) (hash c)) eqn:Eb; cbn [fst snd]; [|discriminate].
+      intros H; injection H as <-. apply beqb_eq in Eb. split; [exact Eb|].
+      rewrite Hf3. destruct (tagv st2) as [d|].
+      + destruct Ha3 as [de [-> Hd]]. cbn in Ed3. injection Ed3 as ->. congruence.
+      + destruct Ha3 as [e0 ->]. discriminate.
+  Qed.
+
+  Theorem imm_binding_forever_at h : forall st d,
+    tagv st = Some d -> tagv (fst (trun imm_step st h)) = Some d.
+  Proof.
+    induction h as [|o h IH]; intros st d Hb; [exact Hb|]. cbn [trun].
+    pose proof (imm_binding_kept_at st o d Hb) as H1.
+    destruct (imm_step st o) as [[s1 res] tr]. cbn [fst] in H1.
+    specialize (IH s1 d H1). destruct (trun imm_step s1 h). exact IH.
+  Qed.
+
+  (* once ResolveTag r t answered digest d through the wrapper, every later ResolveTag r t
+     through the wrapper answers d - whatever was pushed under other tags in between, by the
+     wrapper's user or by anybody else *)
+  Theorem imm_tag_forever_at h1 h2 st de :
+    let '(s1, _) := trun imm_step st h1 in
+    snd (fst (imm_step s1 (ResolveTag r t))) = Ok (RDesc de) ->
+    let s1' := fst (fst (imm_step s1 (ResolveTag r t))) in
+    let '(s2, _) := trun imm_step s1' h2 in
+    exists de', snd (fst (imm_step s2 (ResolveTag r t))) = Ok (RDesc de') /\ d_digest de' = d_digest de.
+  Proof.
+    destruct (trun imm_step st h1) as [s1 rs1]. rewrite !imm_resolve. cbn [fst snd].
+    intros Hres.
+    assert (Hb : tagv s1 = Some (d_digest de)).
+    { pose proof (resolve_at s1) as Ha. destruct (tagv s1) as [d|].
+      - destruct Ha as [de0 [H1 H2]]. rewrite H1 in Hres. injection Hres as <-. now subst.
+      - destruct Ha as [e H1]. rewrite H1 in Hres. discriminate. }
+    pose proof (imm_binding_forever_at h2 (fst (bstep s1 (ResolveTag r t))) (d_digest de)) as Hf.
+    rewrite resolve_frame_at in Hf. specialize (Hf Hb).
+    destruct (trun imm_step (fst (bstep s1 (ResolveTag r t))) h2) as [s2 rs2]. cbn [fst] in Hf.
+    rewrite imm_resolve. cbn [fst snd].
+    pose proof (resolve_at s2) as Ha. rewrite Hf in Ha. exact Ha.
+  Qed.
+End ImmutableAt.
